@@ -44,6 +44,11 @@ def pOp : P (Op Float) := do
   | "sv" => do let idx ← nat; pure (.solveAdd ⟨idx, ← flt⟩)
   | "up" => pure .update
   | "is" => pure .imageSolve
+  | "ss" => do
+    let s ← flt
+    let ri ← listOf bool
+    let ti ← listOf bool
+    pure (.scale s ri ti)
   | t => throw s!"op:{t}"
 
 def snapshot (ok : Bool) (P : Presc Float) : String :=
@@ -54,7 +59,7 @@ def snapshot (ok : Bool) (P : Presc Float) : String :=
   (if ok then "ok " else "err ") ++ toString P.surfs.length ++ " " ++
     " ".intercalate (P.surfs.map surf) ++ " " ++
     (match primaryIndex P with | some i => toString i | none => "none") ++ " " ++ toString P.waves.length ++
-    " " ++ (match stopIndexP P with | some i => toString i | none => "none")
+    " " ++ (match stopIndexP P with | some i => toString i | none => "none") ++ " " ++ hexOf P.apValue
 
 /-- `presc apType apValue fieldType maxY objInf <nops> ops…` → one snapshot per op, separated by `|` -/
 def prescCmd : P String := do
